@@ -1,6 +1,7 @@
 package main
 
 import (
+	"bytes"
 	"fmt"
 	"syscall"
 
@@ -25,6 +26,67 @@ const (
 	c13OneShotLens = 1025 // lengths 0..1024
 )
 
+// c13FrameCases: the checksums as the frame layer uses them (header byte, block checksums over the
+// stored bytes, content checksum over the content): sizes around the block size x {Write, small
+// Writes, ReadFrom} x concurrency {1, 4} x {one frame, second frame of a reused Writer}.
+const c13FrameCases = 48
+
+func c13Frame(c *Ctx, i int64, k int) {
+	g := c.Rng(i)
+	const bs = 65536
+	n := []int{0, 1, 15, 16, 17, bs - 1, bs, bs + 1, 2 * bs, 2*bs + 5, 3 * bs, 3*bs + 4096}[k%12]
+	delivery := (k / 12) % 2 // 0 Write (one call or 1000-byte calls), 1 ReadFrom
+	conc := []int{1, 4}[(k/24)%2]
+	data := mixData(g, n)
+	var sinks [2]bytes.Buffer
+	var failed error
+	if c.Guard("Writer", func() {
+		w := lz4.NewWriter(&sinks[0])
+		if err := w.Apply(lz4.BlockSizeOption(lz4.Block64Kb), lz4.BlockChecksumOption(true), lz4.ChecksumOption(true), lz4.ConcurrencyOption(conc)); err != nil {
+			failed = err
+			return
+		}
+		for f := 0; f < 2 && failed == nil; f++ {
+			if f == 1 {
+				w.Reset(&sinks[1])
+			}
+			switch {
+			case delivery == 1:
+				_, failed = w.ReadFrom(bytes.NewReader(data))
+			case k%2 == 0:
+				_, failed = w.Write(data)
+			default:
+				for p := 0; p < len(data) && failed == nil; p += 1000 {
+					e := p + 1000
+					if e > len(data) {
+						e = len(data)
+					}
+					_, failed = w.Write(data[p:e])
+				}
+			}
+			if failed == nil {
+				failed = w.Close()
+			}
+		}
+	}) {
+		return
+	}
+	if failed != nil {
+		c.Violation("frame/writer-call-failed", failed.Error(), nil)
+		return
+	}
+	for f := 0; f < 2; f++ {
+		c.Count("frames_checked_for_checksums", 1)
+		pf, err := ref.ParseFrame(sinks[f].Bytes(), ref.ParseOpts{})
+		if fe, ok := err.(*ref.FrameError); ok && (fe.Kind == ref.ErrBlockChecksum || fe.Kind == ref.ErrContentChecksum || fe.Kind == ref.ErrHeaderChecksum) {
+			c.Violation("frame-checksum-wrong/"+fe.Kind.String(), fmt.Sprintf("frame %d of a Writer (concurrency %d, %s, %d bytes): %v", f+1, conc, []string{"Write", "ReadFrom"}[delivery], n, err), map[string]interface{}{"n": n, "conc": conc, "delivery": delivery, "frame_no": f + 1})
+		} else if err == nil && !bytes.Equal(pf.Content, data) {
+			c.Count("frames_with_other_content_not_judged_here", 1)
+		}
+		c.Cell(fmt.Sprintf("frame-usage/n=%d/delivery%d/conc%d/frame%d", n, delivery, conc, f+1))
+	}
+}
+
 func c13Counts(c *Ctx) (nA, nB, nC, nD, nE int64) {
 	nA = c13OneShotLens
 	nB = 16 * int64(len(c13L1))
@@ -42,7 +104,7 @@ func init() {
 	register("C13", &PropDef{
 		Total: func(c *Ctx) int64 {
 			a, b, cc, d, e := c13Counts(c)
-			return a + b + cc + d + e
+			return a + b + cc + d + c13FrameCases + e
 		},
 		Run: c13Run,
 	})
@@ -79,8 +141,10 @@ func c13Run(c *Ctx, i int64) {
 		c13Random(c, i)
 	case i < nA+nB+nC+nD:
 		c13Boundary(c, i, int(i-nA-nB-nC))
+	case i < nA+nB+nC+nD+c13FrameCases:
+		c13Frame(c, i, int(i-nA-nB-nC-nD))
 	default:
-		c13Huge(c, i, int(i-nA-nB-nC-nD))
+		c13Huge(c, i, int(i-nA-nB-nC-nD-c13FrameCases))
 	}
 }
 
